@@ -136,7 +136,27 @@ fn do_job(job: Job, driver: &str, rep: &mut Report) {
         };
         let mode = *rng.pick(&[LenMode::All, LenMode::None, LenMode::Mixed, LenMode::Mixed]);
         label_c01(&mut rng, &mut r, kind, mode);
+        // a NaN branch length is a value like any other for the writer and the parser (all NaNs are identified when
+        // lengths are compared): now and then one present length is replaced by NaN
+        if rng.chance(1, 10) {
+            let mut done = false;
+            let pick = rng.below(8);
+            let mut seen = 0;
+            r.for_each_mut(&mut |x: &mut Rose, _root: bool, _d: usize| {
+                if x.len.is_some() {
+                    if seen == pick && !done { x.len = Some(f64::NAN); done = true; }
+                    seen += 1;
+                }
+            }, true, 0);
+            if done { rep.count("lengths:one-NaN"); }
+        }
         let (tree, how, bseed) = build(&mut rng, &r);
+        // a tree object with a PAST: bipartition / distance queries were answered (and their caches filled) before it is written
+        let past = rng.chance(1, 3);
+        if past {
+            let _ = guarded(std::panic::AssertUnwindSafe(|| { let _ = tree.get_partitions(); let _ = tree.distance_matrix(); let _ = tree.robinson_foulds(&tree.clone()); }));
+            rep.count("objects-with-a-past");
+        }
         if how == "grown" {
             match rose_of_tree(&tree) {
                 Some(actual) => r = actual,
@@ -191,6 +211,26 @@ fn do_job(job: Job, driver: &str, rep: &mut Report) {
             }
         }
         if job.formats {
+            // Nexus export of an object that was queried AND THEN EDITED without the cache reset (the export must describe the
+            // tree as it is now: it never reads the bipartition caches): a leaf is removed after the leaf index was built
+            let mut tree = tree;
+            let mut r = r;
+            let mut arena = arena;
+            let mut how_ctx = String::new();
+            if past && rng.chance(1, 2) {
+                let tips: Vec<usize> = slots_of(&tree).iter().enumerate().filter(|(_, x)| !x.deleted && x.children.is_empty() && x.parent.is_some()).map(|(i, _)| i).collect();
+                if tips.len() >= 2 {
+                    let victim = *rng.pick(&tips);
+                    if tree.prune(&victim).is_ok() {
+                        if let Some(actual) = rose_of_tree(&tree) {
+                            r = actual;
+                            arena = enc_arena_lex(&slots_of(&tree));
+                            how_ctx = format!("\nar.q\tparts (answered before the edit)\nar.prune\t{victim} (no cache reset)");
+                            rep.count("nexus:after-unreset-edit");
+                        }
+                    }
+                }
+            }
             let t2 = tree.clone();
             let nx = guarded(move || t2.to_nexus());
             let ans = match &nx {
@@ -209,7 +249,7 @@ fn do_job(job: Job, driver: &str, rep: &mut Report) {
                 let want_ntax = format!("NTAX={};", r.n_leaves());
                 let want_labels = format!("TAXLABELS {};", names.join(" "));
                 let want_tree = format!("TREE tree1 = {}", tree.to_newick().unwrap_or_default());
-                let case = format!("real.build\t{how}\t{canon}\t{bseed}\nnw.nexus");
+                let case = format!("real.build\t{how}\t{canon}\t{bseed}{how_ctx}\nnw.nexus");
                 if !s.contains(&want_ntax) {
                     rep.oracle("nexus", "ntax", &case, &s);
                 } else if !s.contains(&want_labels) {
